@@ -692,15 +692,33 @@ Proof.
 Qed.
 
 (* ---------- the statements ---------- *)
+Lemma find_nl_spec : forall l k m, find_nl l k = Some m ->
+  k <= m /\ m - k < List.length l /\ count_nl (firstn (S (m - k)) l) = 1.
+Proof.
+  induction l as [|b t IH]; intros k m H; [discriminate|]. cbn [find_nl] in H. destruct (b =? 10) eqn:E.
+  - inversion H. subst. rewrite Nat.sub_diag. cbn [length firstn count_nl]. rewrite E. split; [lia|]. split; [lia|reflexivity].
+  - apply IH in H. destruct H as (A & B & C). split; [lia|]. cbn [length]. split; [lia|].
+    replace (m - k) with (S (m - (k + 1))) by lia. cbn [firstn count_nl]. rewrite E. cbn [firstn] in C. exact C.
+Qed.
+
+Lemma preprocess_fwd s raw ts : fwd s 0 raw -> preprocess raw = Ok ts -> fwd s 0 ts.
+Proof.
+  intros F H. unfold preprocess in H. destruct (pass1 (S (List.length raw)) raw) as [f1| | |] eqn:P1; try discriminate.
+  inversion H. subst ts. apply pass4_ok, pass3_ok. eapply pass1_ok; eauto.
+Qed.
+
 Theorem tokenize_fwd : forall template s ts, tokenize template s = Ok ts -> fwd s 0 ts.
 Proof.
   intros template s ts H. unfold tokenize in H.
   destruct (tokenize_raw template s) as [raw| | |] eqn:R; try discriminate.
-  unfold tokenize_raw in R. destruct (negb template && prefix [35; 33] s); [discriminate|].
-  destruct (negb template && prefix _ s); [discriminate|].
-  apply (lex_loop_ok s) in R; [|reflexivity|lia|reflexivity]. destruct R as (tl & -> & F). cbn [rev app] in *.
-  unfold preprocess in H. destruct (pass1 (S (List.length tl)) tl) as [f1| | |] eqn:P1; try discriminate.
-  inversion H. subst ts. apply pass4_ok, pass3_ok. eapply pass1_ok; eauto.
+  apply (preprocess_fwd s raw ts); [|exact H]. clear H.
+  unfold tokenize_raw in R. destruct (negb template && prefix [35; 33] s).
+  - destruct (find_nl s 0) as [nl|] eqn:FN; [|inversion R; exact I].
+    apply find_nl_spec in FN. rewrite Nat.sub_0_r in FN. destruct FN as (_ & L & C).
+    apply (lex_loop_ok s) in R; [|reflexivity|lia|symmetry; exact C]. destruct R as (tl & -> & F). cbn [rev app].
+    eapply fwd_weaken; [|exact F]. lia.
+  - destruct (negb template && prefix _ s); [discriminate|].
+    apply (lex_loop_ok s) in R; [|reflexivity|lia|reflexivity]. destruct R as (tl & -> & F). exact F.
 Qed.
 
 Theorem tokenize_total : forall template s, tokenize template s <> OutOfFuel.
@@ -708,9 +726,11 @@ Proof.
   intros template s. unfold tokenize. destruct (tokenize_raw template s) as [raw| | |] eqn:R; try discriminate.
   - unfold preprocess. destruct (pass1 (S (List.length raw)) raw) as [f1| | |] eqn:P1; try discriminate.
     exfalso. exact (pass1_total _ _ (Nat.lt_succ_diag_r _) P1).
-  - exfalso. unfold tokenize_raw in R. destruct (negb template && prefix [35; 33] s); [discriminate|].
-    destruct (negb template && prefix _ s); [discriminate|].
-    exact (lex_loop_total _ _ _ _ _ _ _ _ (Nat.lt_succ_diag_r _) R).
+  - exfalso. unfold tokenize_raw in R. destruct (negb template && prefix [35; 33] s).
+    + destruct (find_nl s 0) as [nl|]; [|discriminate].
+      refine (lex_loop_total _ _ _ _ _ _ _ _ _ R). rewrite skipn_length. lia.
+    + destruct (negb template && prefix _ s); [discriminate|].
+      exact (lex_loop_total _ _ _ _ _ _ _ _ (Nat.lt_succ_diag_r _) R).
 Qed.
 
 Theorem tokenize_no_crash : forall template s, tokenize template s <> Crash.
@@ -718,6 +738,7 @@ Proof.
   intros template s. unfold tokenize. destruct (tokenize_raw template s) as [raw| | |] eqn:R; try discriminate.
   - unfold preprocess. destruct (pass1 (S (List.length raw)) raw) as [f1| | |] eqn:P1; try discriminate.
     exfalso. exact (pass1_no_crash _ _ P1).
-  - exfalso. unfold tokenize_raw in R. destruct (negb template && prefix [35; 33] s); [discriminate|].
-    destruct (negb template && prefix _ s); [discriminate|]. exact (lex_loop_no_crash _ _ _ _ _ _ _ _ R).
+  - exfalso. unfold tokenize_raw in R. destruct (negb template && prefix [35; 33] s).
+    + destruct (find_nl s 0) as [nl|]; [|discriminate]. exact (lex_loop_no_crash _ _ _ _ _ _ _ _ R).
+    + destruct (negb template && prefix _ s); [discriminate|]. exact (lex_loop_no_crash _ _ _ _ _ _ _ _ R).
 Qed.
